@@ -155,49 +155,87 @@ func runC11(c *Ctx) {
 		}
 		return true
 	})
-	var errIf *ast.IfStmt
-	for _, st := range fd.Body.List {
-		if is, ok := st.(*ast.IfStmt); ok {
-			if be, ok := is.Cond.(*ast.BinaryExpr); ok && be.Op == token.NEQ && types.ExprString(be.Y) == "nil" {
-				if id, ok := be.X.(*ast.Ident); ok && errObj != nil && info.ObjectOf(id) == errObj {
-					errIf = is
+	// Paths through the handler, split by the outcome of the render: effects are attributed to the error side or the
+	// success side by the truth value the path took for `err != nil` / `err == nil` (any arrangement of branches).
+	den := &denum{info: info, pkg: p.Types, inits: map[types.Object]ast.Expr{}, limit: 5000}
+	den.finish(den.run(fd.Body.List, []dstate{{env: map[types.Object]ast.Expr{}}}))
+	if den.undecided != "" {
+		c.undec("C11.R3", key+"|error-branch", c.pos(fd.Pos()), "the buffered handler contains "+den.undecided+": its paths cannot be enumerated")
+		return
+	}
+	sideOf := func(pth dpath) string {
+		for _, pc := range pth.Conds {
+			be, ok := ast.Unparen(pc.Expr).(*ast.BinaryExpr)
+			if !ok || types.ExprString(be.Y) != "nil" {
+				continue
+			}
+			id, ok := ast.Unparen(be.X).(*ast.Ident)
+			if !ok || errObj == nil || info.ObjectOf(id) != errObj {
+				continue
+			}
+			isErr := pc.Val
+			if be.Op == token.EQL {
+				isErr = !isErr
+			} else if be.Op != token.NEQ {
+				continue
+			}
+			if isErr {
+				return "error"
+			}
+			return "success"
+		}
+		return "untested"
+	}
+	sides := map[ast.Node]map[string]bool{}
+	var errStmts []ast.Stmt
+	nErrPaths, nOKPaths := 0, 0
+	for _, pth := range den.paths {
+		side := sideOf(pth)
+		switch side {
+		case "error":
+			nErrPaths++
+		case "success":
+			nOKPaths++
+		}
+		for _, st := range pth.Trace {
+			if side == "error" {
+				errStmts = append(errStmts, st)
+			}
+			for _, e := range effects {
+				if st.Pos() <= e.node.Pos() && e.node.End() <= st.End() {
+					if sides[e.node] == nil {
+						sides[e.node] = map[string]bool{}
+					}
+					sides[e.node][side] = true
 				}
 			}
 		}
 	}
-	if errIf == nil {
-		c.viol("C11.R3", key+"|error-branch", c.pos(fd.Pos()), "no top-level `if err != nil` on the render error")
+	errRegion := &ast.BlockStmt{List: errStmts}
+	if nErrPaths == 0 || nOKPaths == 0 {
+		c.viol("C11.R3", key+"|error-branch", c.pos(fd.Pos()), "the buffered handler does not branch on the render error: the response is the same whether or not rendering failed")
 	} else {
-		var errEff, okEff []effect
+		var errEff, okEff, mixedEff []effect
 		for _, e := range effects {
-			if errIf.Body.Pos() <= e.node.Pos() && e.node.End() <= errIf.Body.End() {
+			sd := sides[e.node]
+			switch {
+			case sd["error"] && !sd["success"] && !sd["untested"]:
 				errEff = append(errEff, e)
-			} else {
+			case sd["success"] && !sd["error"] && !sd["untested"]:
 				okEff = append(okEff, e)
+			case len(sd) > 0:
+				mixedEff = append(mixedEff, e)
 			}
 		}
-		allReturn := blockAlwaysReturns(errIf.Body)
-		c.check(allReturn, "C11.R3", key+"|error-branch-returns", c.pos(errIf.Pos()), "the error branch returns on every path",
-			"a path through the `err != nil` branch falls through to the success response: an error status/body is followed by the success headers and the (partial) buffer")
-		cross := ""
-		for _, e := range errEff {
-			for _, s := range okEff {
-				if fc.reachable(e.node, s.node) {
-					cross = e.what + " → " + s.what
-				}
-			}
+		mixed := ""
+		for _, e := range mixedEff {
+			mixed = e.what + " at " + c.pos(e.node.Pos())
 		}
-		c.check(cross == "" && len(errEff) >= 1 && len(okEff) >= 1, "C11.R3", key+"|error-and-success-effects-disjoint", c.pos(errIf.Pos()),
-			fmt.Sprintf("%d error effects, %d success effects, none reachable from the other side", len(errEff), len(okEff)),
-			"a success effect is reachable after an error effect ("+cross+")")
-		// success effects must come after the error test (so they only run with err == nil)
-		okAfter := true
-		for _, s := range okEff {
-			if !(s.node.Pos() > errIf.End()) {
-				okAfter = false
-			}
-		}
-		c.check(okAfter, "C11.R3", key+"|success-effects-after-error-test", c.pos(errIf.Pos()), "success effects follow the error test", "a success effect precedes the error test")
+		c.check(mixed == "", "C11.R3", key+"|success-effects-after-error-test", c.pos(fd.Pos()), "every effect on the ResponseWriter is on one side of the error test only",
+			"an effect on the ResponseWriter ("+mixed+") is executed both when rendering failed and when it succeeded (it precedes the error test, or the error branch falls through to it): a header, status or body meant for the success response is committed for the error response too")
+		c.check(len(errEff) >= 1 && len(okEff) >= 1, "C11.R3", key+"|error-and-success-effects-disjoint", c.pos(fd.Pos()),
+			fmt.Sprintf("%d effects on error paths only, %d on success paths only", len(errEff), len(okEff)),
+			"the error side or the success side of the buffered handler has no effect on the ResponseWriter of its own")
 		// the buffer must not be written on the error path
 		leak := false
 		for _, e := range errEff {
@@ -250,10 +288,10 @@ func runC11(c *Ctx) {
 			})
 			return res
 		}
-		commits = findStatus(errIf.Body, 0)
-		c.check(commits == "", "C11.R3", key+"|success-status-not-committed-on-error", c.pos(errIf.Pos()), "the configured status is written only on the success side",
+		commits = findStatus(errRegion, 0)
+		c.check(commits == "", "C11.R3", key+"|success-status-not-committed-on-error", c.pos(fd.Pos()), "the configured status is written only on the success side",
 			"the error branch commits the configured success status ("+commits+") before the error handler runs: the client receives a success status with the error body")
-		c.check(!leak, "C11.R3", key+"|no-document-bytes-on-error", c.pos(errIf.Pos()), "the error branch never writes the buffer", "the error branch writes the (partial) buffer to the client")
+		c.check(!leak, "C11.R3", key+"|no-document-bytes-on-error", c.pos(fd.Pos()), "the error branch never writes the buffer", "the error branch writes the (partial) buffer to the client")
 		// R4
 		var writes []*ast.CallExpr
 		for _, s := range okEff {
